@@ -138,6 +138,12 @@ func (c *ProcChan) WaitStop() {
 // addCallCtx : add call context
 func (c *ProcChan) addCallCtx(ctx context.Context, proc Proc) (*procChanCtxT, error) {
 	var procCtx = newProcChanCtx(ctx, proc)
+	//after stop, refuse before trying to enqueue: select picks randomly among ready cases
+	select {
+	case <-c.stopChan:
+		return procCtx, ErrClosed
+	default:
+	}
 	select {
 	case c.ch <- procCtx:
 		return procCtx, nil
